@@ -51,7 +51,9 @@ func buildDistWorld(r *kernel.Rng, o distProfileOpts) (*kernel.WorldSpec, DistGe
 		cfg.BaseAddrs = append(cfg.BaseAddrs, kernel.ActorBech(fmt.Sprintf("sink-%d", i)))
 	}
 	if (o.Faulty || o.BlockedDests) && r.P(0.5) {
-		cfg.BlockedBaseAddrs = []string{kernel.ModuleAddr("transfer").String(), kernel.ModuleAddr("interchainaccounts").String()}
+		cfg.BlockedBaseAddrs = []string{kernel.ModuleAddr("transfer").String(), kernel.ModuleAddr("interchainaccounts").String(),
+			// module accounts that exist in the account store from genesis on
+			kernel.ModuleAddr("bonded_tokens_pool").String(), kernel.ModuleAddr("distribution").String()}
 	}
 	params, err := GenDistParams(r.Fork(2), cfg)
 	if err != nil {
